@@ -321,3 +321,23 @@ Example C01_G1_convex_lattice_nonvacuous :
   good ex_two_triangles /\ faces_convexb ex_two_triangles = true /\
   good ex_torus_2x2 /\ faces_convexb ex_torus_2x2 = true.
 Proof. repeat split; vm_compute; reflexivity. Qed.
+
+(* the convexity hypothesis does not depend on the reference direction or on the edge the walk starts with:
+   convex_ccw_ref r vs  =  r <> 0, vs <> [], the vectors sum to zero, every vertex is a strict left turn, and the
+   directions of vs AS LISTED are strictly increasing in angle measured anticlockwise from r within [0, 2 pi)
+   ([alt r]; e.g. r = the first edge itself).  Any such walk is convex_ccw (Proofs/WindingConvexRef.v). *)
+From Koala Require Import Proofs.WindingConvexRef.
+Theorem C01_G1_convex_any_reference : forall r vs p,
+  (convex_ccw_ref r vs -> winding vs = (-1)%Z /\ (0 < area2 (cumsum_from p vs))%Z) /\
+  (convex_ccw_ref r (rv vs) -> winding vs = 1%Z /\ (area2 (cumsum_from p vs) < 0)%Z).
+Proof. exact G1_convex_ref. Qed.
+Print Assumptions C01_G1_convex_any_reference.
+
+(* the hexagon, measured from its own first edge, and from an unrelated direction after starting at another edge *)
+Example C01_G1_convex_any_reference_nonvacuous :
+  convex_ccw_ref (hd vzero ex_hexagon) ex_hexagon /\
+  convex_ccw_ref (-3, -1)%Z [(-2, -1); (0, -2); (2, -1); (2, 1); (0, 2); (-2, 1)]%Z.
+Proof.
+  split; (split; [discriminate|]; split; [discriminate|]; split; [reflexivity|]; split;
+    [unfold left_turns; vm_compute; repeat constructor|unfold ref_sorted; repeat constructor]).
+Qed.
